@@ -23,7 +23,7 @@ def run(ctx: core.Ctx) -> None:
                   or any(v >= 100 for v in x['cfg']['c0']) or x['fin']['hb'] == 'exc' or x['fin']['ha'] == 'exc'
                   or x['cfg']['errors'] == 'bogus' or any(v >= 100 for v in (x['fin'].get('wb') or []))]
         ctx.extra.setdefault('fault_behaviours', {})[name] = len(faulty)
-        sc.replay(ctx, faulty, all_variants=not quick, what=name, variants=sc.VARIANTS + [sc.TINY, sc.SIGNED, sc.HISTORY, sc.HISTORY2] + ([sc.HUGE] if name == 'vec' else []))
+        sc.replay(ctx, faulty, all_variants=not quick, what=name, variants=sc.VARIANTS + [sc.TINY, sc.SIGNED, sc.HISTORY, sc.HISTORY2, sc.WNAN, sc.USERWARN] + ([sc.HUGE] if name == 'vec' else []))
     sim = sc.simulate_and_emit(ctx, 'long', 6 if quick else 12, inv, num=2000 if quick else 60000)
     sc.replay(ctx, sim, all_variants=False, what='long-sim')
     ctx.exhaustive = False
